@@ -766,7 +766,7 @@ def run_check(run, tier, seed, shard):
                 if res.status != 'compared':
                     break
         # (b)+(c) generated
-        n = 2500 if quick else 40000
+        n = 2500 if quick else 200000
         cyc = 32 if quick else 64
         for idx in shard_slice(range(n), shard):
             if time.time() > deadline or run.too_many:
